@@ -139,11 +139,34 @@ CHECKS["C20"] = dict(engine="conc", category="other", design_ref="DESIGN.md §5 
     note="Level other: a theorem about the modelled shared state plus a stress test over the schedules the OS produced.",
     technique="Coq schedule-independence theorem for the modelled state + concurrent stress/differential test")
 
+CHECKS["C18"] = dict(engine="dag", category="proof", design_ref="DESIGN.md §5 C18, §11.3",
+    text="Line-by-line Coq model of dag.rs (explicit-stack PostOrderIter with trackers as key functions, SwapChildren/rtl, "
+         "PreOrderIter, VerbosePreOrderIter, is_shared_as) proved equal to a structurally recursive specification with explicit "
+         "fuel and no panic; from the specification: consecutive indices, each keyed class at most once, only reachable nodes, "
+         "child indices point at the children's classes, root last and no unreferenced item (acyclic keys), every reachable "
+         "class yielded (congruent keys), NoSharing = tree expansion, rtl = mirror, pre-order parents first and same nodes, "
+         "is_shared_as iff same node sequence; the key hypotheses are shown satisfiable and necessary. Exhaustive over all "
+         "DAG shapes up to 5 (quick) / 6 (thorough) nodes and all key partitions, plus random DAGs and real programs.",
+    note="Trusted: Coq kernel, hand-written model, harness (DagLike over a table, keyed tracker), python recursive references.",
+    technique="Coq refinement proof (explicit-stack iterator = recursive specification) + exhaustive-small correspondence")
+CHECKS["C17"] = dict(engine="human", category="proof", design_ref="DESIGN.md §5 C17, §11.3",
+    text="Coq model at the level of definitions (not characters) of naming, rendering (string_serialize: per-object post-order, "
+         "three sections) and resolving (the parser from the line list on: inline expressions, name table, generated names, "
+         "holes, witness path counts): every name referred to is defined exactly once, resolve(render d) is d up to renumbering "
+         "(hence same root/encoding for any bottom-up hash), generated names are fresh, the old per-identity-hash renderer is "
+         "refuted. Lexer, line grammar, type printing/parsing are not modelled: covered by the round-trip search on generated "
+         "programs, generated texts and arbitrary strings (termination, no panic).",
+    note="Trusted: Coq kernel, hand-written model, harness. Open finding F-C17h (non-principal types do not reparse) matched by "
+         "a per-case predicate computed in the harness.",
+    technique="Coq proof of render/resolve round trip at definition level + round-trip search on programs and texts")
+
 NOT_YET = {}
 
 ENGINES = [
     dict(name="bits", path="coq/Bits", serves_properties=["C13"], kind_free_text="Coq model + proofs of bit reader/writer/natural code"),
     dict(name="budget", path="coq/Budget", serves_properties=["C19"], kind_free_text="Coq model + proofs of budget/padding arithmetic over translated constants"),
+    dict(name="dag", path="coq/Dag", serves_properties=["C18"], kind_free_text="Coq model of dag.rs iterators + refinement proofs"),
+    dict(name="human", path="coq/Human", serves_properties=["C17"], kind_free_text="Coq model of naming/rendering/resolving + round-trip proof"),
     dict(name="infer", path="coq/Infer", serves_properties=["C04"], kind_free_text="Coq reference type inference + proofs"),
     dict(name="redeem", path="coq/Redeem", serves_properties=["C08", "C12"], kind_free_text="Coq models of pruning and witness routes"),
     dict(name="cdiff", path="coq/Cdiff", serves_properties=["C03", "C06"], kind_free_text="Rust/C differential harness + Coq cost reference"),
